@@ -645,3 +645,9 @@ def run(ctx, report: Report) -> None:
     # only the decode / unquoting findings belong to this property (the case-folding findings are C09/C11 material)
     r6.findings[:] = [f for f in r6.findings if 'decodes=' in f.key or ' step ' in f.key or 'slice after decode' in f.key]
 
+    # ---- R7 (texts compiled by interpretation, bounded) -----------------------------------------------------------------
+    r7 = report.rule('C10-R7', 'escape(s) read back by the parser is the identifier s (hostile characters in every position; bounded)', floor=1)
+    from .e2etab import escape_roundtrip_table
+    escape_roundtrip_table(ctx, r7)
+
+
